@@ -39,6 +39,10 @@ def delivery_checks(case, obs, out, strict_positions=True):
     for a in c.arrivals:
         if a.api == "offset_fetch" and a.delivered and a.extra.get("offsets_given"):
             fetch_given.setdefault(a.client_id, []).append((a.t_end, a.extra["offsets_given"]))
+    sync_ok = {}
+    for a in c.arrivals:
+        if a.api == "sync" and a.delivered and a.reply and a.reply.get("error") == 0 and a.t_end is not None:
+            sync_ok.setdefault(a.client_id, []).append(a)
     tl = member_timelines(obs)
     info = {}
     for tag, evs in tl.items():
@@ -77,14 +81,22 @@ def delivery_checks(case, obs, out, strict_positions=True):
             t_first = lst[0][1]
             ep_begin = [e["t"] for e in evs if e["kind"] == "assigned_begin" and e["epoch"] == ep]
             tb = ep_begin[0] if ep_begin else 0.0
+            # the epoch's state exists from the SyncGroup reply on (the assigned callback may start later): every
+            # assignment gets fresh partition state, so the committed offset must have been looked up since then
+            syncs = [a.t_end for a in sync_ok.get(tag, []) if a.t_end <= tb + 1e-9]
+            t0 = syncs[-1] if syncs else tb
             given = None
             for (t_end, g) in fetch_given.get(tag, []):
-                if tb - 1e-9 <= t_end <= t_first + 1e-9 and tp in g:
+                if t0 - 1e-9 <= t_end <= t_first + 1e-9 and tp in g:
                     given = g[tp]
             if given is None:
-                # the committed offset was looked up under the previous epoch and the partition stayed assigned
-                prev = [(t_end, g[tp]) for (t_end, g) in fetch_given.get(tag, []) if tp in g and t_end <= t_first + 1e-9]
                 start = None
+                if strict_positions and ep_begin:
+                    stored = c.groups.groups["g"].offsets.get(tuple([tp.rsplit(":", 1)[0], int(tp.rsplit(":", 1)[1])])) \
+                        if "g" in c.groups.groups else None
+                    out.fail("no_stale_data", "epoch_started_without_committed_offset_lookup",
+                             {"member": tag, "epoch": ep, "tp": tp, "first_delivered": offs[0],
+                              "stored_committed_now": stored[0] if stored else None, "since": t0, "first_delivery_at": t_first})
             else:
                 start = given if given >= 0 else obs.final[tp]["log_start"]
             v = vis.get(tp, [])
